@@ -43,6 +43,12 @@ def run(chk: Check, proj: Project) -> None:
     s7(chk, proj, w)
     s8(chk, proj, w)
     s9(chk, proj, w)
+    from . import C03 as _C03, C14 as _C14
+
+    chk.borrow("S11", "the inject keys that SlotNode.render pushes for a fill stay the TOP layer while the fill renders: the captured-variable layer is inserted under it (`len(ctx.dicts) - 1`), never on top - a captured copy of an outer loop layer carries the inject key that was current THEN and would shadow the nearest provider (shared with C03-S12)",
+               lambda sub: _C03.s12_layer_frame(sub, proj, w), only=lambda o: "outer-context-case" in o.construct)
+    chk.borrow("S12", "inject() reads the context of the render that is CURRENT: the per-instance metadata stack is LIFO - pushed with append, popped from the same end (a component that renders itself again in get_context_data must find its own entry back) (shared with C14-S1)",
+               lambda sub: _C14.s1(sub, proj, w), only=lambda o: "lifo" in o.construct.lower() or "stack" in o.construct.lower())
     s10(chk, proj, w)
 
 
